@@ -21,7 +21,7 @@ func init() {
 			"(ii) all single-send scripts with 2-3 sources x 2-3 destination shares with kept in every position x all balances; oracle: source x destination flow matrix == in-order pairing of the draw list with the distribution list, kept units withheld from the senders next in line; " +
 			"non-trivial = at least one share is split across two postings or a kept share is present; distinct = the two lists / script text + inputs",
 		Assumptions: []string{"no posting order is demanded beyond what the flow matrix implies", "Reconcile is given fresh slices and fresh big.Ints on every call (it reverses its arguments in place)"},
-		QuickBudget: 100 * time.Second,
+		QuickBudget: 240 * time.Second,
 		ThoroBudget: 12 * time.Minute,
 		Run:         runC07,
 	})
